@@ -92,6 +92,7 @@ class ShardResult:
         self.summaries = []
         self.deaths = []
         self.inconclusive = []
+        self.stopped_early = []
         self.bitmaps = []
 
 
@@ -155,6 +156,13 @@ def run_shard(binary, prop, tier, seed, shard, nshards, outdir, extra_args, only
         start_after = max(start_after, done)
         skips.append(j["n"])
         if only:
+            return
+        same = sum(1 for d in res.deaths if d.get("sig") == sig and d.get("shard") == shard)
+        res.deaths[-1]["shard"] = shard
+        if sig.startswith("death/blocked/") and same >= 2:
+            # every occurrence costs half a minute of waiting; the violation is established, the remaining
+            # cases of this shard are not explored (said in the evidence, the run exits 1 anyway)
+            res.stopped_early.append("shard %d stopped after %d deaths with signature %s" % (shard, same + 1, sig))
             return
         if len(skips) > 200:
             res.inconclusive.append("shard %d: more than 200 child deaths" % shard)
@@ -289,6 +297,9 @@ def run_property(prop, tier, seed, only=None, replay_meta=None):
     xproc = {}
     for r in results:
         inconclusive += r.inconclusive
+        for note in r.stopped_early:
+            merged["monitor_events"]["shards_stopped_early"] = merged["monitor_events"].get("shards_stopped_early", 0) + 1
+            merged["notes"].setdefault("stopped_early", []).append(note)
         bitmaps += r.bitmaps
         for s in r.summaries:
             merged["cases"] += s["cases"]
